@@ -129,6 +129,22 @@ var c06StmtPositions = []struct{ name, text string }{
 	{"else-arm", "যদি (0) x = 1; নাহয় {\n  %s\n}\n"},
 }
 
+// faults while another construct is half-finished
+func init() {
+	P, F, R, V := bn.KwPrint, bn.KwFun, bn.KwReturn, bn.KwVar
+	type pos = struct{ name, text string }
+	c06Positions = append(c06Positions,
+		pos{"for-increment-after-closures", V + " keepf = [];\n" + bn.KwFor + " (" + V + " i = 0; i < 3; i = i + (%s)) {\n  " + F + " cl() { " + R + " i; }\n  keepf = " + bn.BPush + "(keepf, cl);\n  " + P + " \"body\";\n}\n" + P + " \"after-loop\";\n"},
+		pos{"third-argument-after-effects", F + " three(a, b, c) { " + P + " \"in-three\"; }\nthree(pr(\"arg1\", 1), x = x + 1, %s);\n" + P + " x;\n"},
+		pos{"call-inside-initialiser", F + " bad() {\n  " + P + " \"in-bad\";\n  " + R + " %s;\n}\n" + V + " lit = {a: pr(\"init-a\", 1), b: bad(), c: pr(\"init-c\", 3)};\n" + P + " lit;\n"},
+		pos{"element-of-argument-literal", P + " " + bn.BLen + "([pr(\"e1\", 1), %s, pr(\"e3\", 3)]);\n"},
+		pos{"condition-of-inner-loop-in-function", F + " runl() {\n  " + bn.KwWhile + " (x < 5) {\n    x = x + 1;\n    " + bn.KwFor + " (; %s; ) {\n      " + P + " \"inner\";\n    }\n  }\n}\nrunl();\n"},
+		pos{"right-operand-of-assignment-chain", V + " c1 = 0;\n" + V + " c2 = 0;\nc1 = c2 = x = %s;\n" + P + " c1;\n"},
+		pos{"key-argument-of-delete", bn.BDelKey + "(obj, %s);\n" + P + " obj;\n"},
+		pos{"prompt-of-input", P + " " + bn.BInput + "(%s);\n"},
+	)
+}
+
 // statement faults inside function bodies: a stray break/continue there is as stray as at top level
 // (no loop of the activation encloses it), whether or not the caller sits in a loop
 func init() {
